@@ -5,6 +5,7 @@ import (
 	"errors"
 	"fmt"
 	"io"
+	"strconv"
 	"strings"
 
 	"github.com/freeconf/yang/node"
@@ -47,11 +48,41 @@ func (self *JSONRdr) Node() (node.Node, error) {
 func (self *JSONRdr) decode() (map[string]interface{}, error) {
 	if self.values == nil {
 		d := json.NewDecoder(self.In)
+		d.UseNumber()
 		if err := d.Decode(&self.values); err != nil {
 			return nil, err
 		}
+		jsonNumbers(self.values)
 	}
 	return self.values, nil
+}
+
+// jsonNumbers turns decoded numbers into float64 like encoding/json does by default except
+// for whole numbers that a float64 cannot hold exactly (beyond 2^53) which become int64 or uint64
+// so 64 bit values are not silently rounded.
+func jsonNumbers(v interface{}) interface{} {
+	switch x := v.(type) {
+	case map[string]interface{}:
+		for k, e := range x {
+			x[k] = jsonNumbers(e)
+		}
+	case []interface{}:
+		for i, e := range x {
+			x[i] = jsonNumbers(e)
+		}
+	case json.Number:
+		const maxExact = 1 << 53
+		if i, err := strconv.ParseInt(string(x), 10, 64); err == nil {
+			if i > maxExact || i < -maxExact {
+				return i
+			}
+		} else if u, err := strconv.ParseUint(string(x), 10, 64); err == nil {
+			return u
+		}
+		f, _ := x.Float64()
+		return f
+	}
+	return v
 }
 
 func leafOrLeafListJsonReader(m meta.Leafable, data interface{}) (v val.Value, err error) {
